@@ -4,7 +4,7 @@
 # obligations that caught it in the seed's meta.json. /repo must be clean (contracts committed).
 cd /repo && git diff --quiet || { echo "/repo has uncommitted changes"; exit 2; }
 cd /verif || exit 2
-[ -x bin/gocv ] || ./check C20 quick >/dev/null 2>&1
+./check C20 quick >/dev/null 2>&1   # (re)builds bin/gocv
 miss=0
 for d in seeded/*/; do
   n=$(basename $d); p=${n%%-*}
